@@ -43,9 +43,11 @@ where
 	}
 	let next = AtomicUsize::new(0);
 	let jobs = rep.jobs.max(1).min(n.max(1));
+	crate::mem::leg_starts();
 	std::thread::scope(|sc| {
 		for _ in 0..jobs {
 			sc.spawn(|| {
+				crate::mem::mark_worker();
 				let mut st = mk();
 				let mut local = Local::default();
 				loop {
